@@ -9,8 +9,8 @@ From Coq Require Import String.
 Fixpoint lead (e : expr) : bool :=
   match e with
   | EId _ => true
-  | EDot t _ | EIndex t _ => lead t
-  | ENum _ | ERe _ _ => false
+  | EDot t _ | EIndex t _ | ECall t _ => lead t
+  | ENum _ | ERe _ _ | ENew _ _ | ANil | ACons _ _ => false
   | _ => true
   end.
 Fixpoint lexok (e : expr) : Prop :=
@@ -19,9 +19,14 @@ Fixpoint lexok (e : expr) : Prop :=
   | EUn o v => lexok v /\ (is_update_pre (IOp o) = true -> lead v = true)
   | EBin _ l r => lexok l /\ lexok r
   | ECond c y n => lexok c /\ lexok y /\ lexok n
-  | EIndex t i => lexok t /\ lexok i
+  | EIndex t i | ECall t i | ENew t i | ACons t i => lexok t /\ lexok i
   | _ => True
   end.
+
+Section WithMode.
+Variable mw : bool.
+Local Notation print_items := (Token.print_items mw).
+Local Notation body := (PrintParse.body mw).
 
 Definition Good (l : list item) : Prop :=
   exists f tl, l = f :: tl /\ starts_operand f = true /\ chain (Some f) tl = true /\ ends_operand (last l f) = true.
@@ -151,99 +156,184 @@ Proof. destruct a; [congruence | reflexivity]. Qed.
 
 Definition simple_head (l : list item) : Prop := match l with IId _ :: _ | IOpen :: _ => True | _ => False end.
 
-Lemma wrapped19c t : compound t = true -> wrapped LPostfix t = true.
+(* a prefix item that is not an operator of the table: the keyword "new" *)
+Lemma G_new a : Good a -> Good (INew :: a).
 Proof.
-  intro Hc. unfold wrapped. rewrite Hc. simpl. rewrite Z.geb_leb. apply Z.leb_le.
-  destruct t as [| | | |u w|o2 a b2|c0 y0 n0|]; try discriminate; simpl;
-    [pose proof (op_level_pos u) | pose proof (op_level_pos o2)]; unfold LPostfix; lia.
+  intros (f & tl & E & Hs & Hc & He). subst a. exists INew, (f :: tl). repeat split.
+  - cbn [chain]. rewrite Hc, andb_true_r. unfold adj. simpl. rewrite Hs. reflexivity.
+  - rewrite (last_cons_default INew (f :: tl) INew f) by discriminate. exact He.
+Qed.
+(* an empty argument list "()" after a callee *)
+Lemma G_call0 a : Good a -> is_post (last a IOpen) = false -> Good (a ++ [ICallOpen; IClose]).
+Proof.
+  intros (f & tl & E & Hs & Hc & He) Hl. subst a. exists f, (tl ++ [ICallOpen; IClose]). repeat split; auto.
+  - rewrite chain_app, Hc. simpl andb. cbn [chain].
+    rewrite (last_indep (f :: tl) IOpen f) in Hl by discriminate.
+    assert (A : adj (last (f :: tl) f) ICallOpen = true) by (unfold adj; rewrite He, Hl; reflexivity).
+    assert (A2 : adj ICallOpen IClose = true) by reflexivity.
+    rewrite andb_true_r. destruct tl as [|x tl']; [exact A|].
+    rewrite <- A. rewrite (last_cons_default f (x :: tl') f x) by discriminate. reflexivity.
+  - rewrite last_app_ne by discriminate. reflexivity.
 Qed.
 
-(* the last item of a member-access target is never a postfix operator *)
-Lemma last19 t : is_post (last (print_items LPostfix t) IOpen) = false.
+Lemma lastT T t : T = LPostfix \/ T = LNew -> wf t -> is_post (last (print_items T t) IOpen) = false.
 Proof.
-  rewrite print_items_split. destruct (compound t) eqn:Ec.
-  - rewrite (wrapped19c t Ec). rewrite app_assoc, last_app_ne by discriminate. reflexivity.
-  - unfold wrapped. rewrite Ec. simpl. destruct t; try discriminate; try reflexivity; unfold body; cbn [print_items].
-    + rewrite last_app_ne by discriminate. reflexivity.
-    + rewrite !app_assoc, last_app_ne by discriminate. reflexivity.
+  intros HT Hw. assert (HT19 : 19 <= T) by (destruct HT; subst T; unfold LPostfix, LNew; lia).
+  rewrite print_items_split. destruct (wrapped T t) eqn:W.
+  - rewrite app_assoc, last_app_ne by discriminate. reflexivity.
+  - unfold wrapped in W.
+    destruct t as [| | |t0 s0|u w|o2 a b2|c0 y0 n0|t0 i0|f0 a0|f0 a0| |]; try reflexivity; try (destruct Hw; fail); simpl in W.
+    + unfold PrintParse.body. cbn [Token.print_items]. rewrite last_app_ne by discriminate. reflexivity.
+    + rewrite Z.geb_leb in W. apply Z.leb_gt in W. pose proof (op_level_pos u). lia.
+    + rewrite Z.geb_leb in W. apply Z.leb_gt in W. pose proof (op_level_pos o2). lia.
+    + rewrite Z.geb_leb in W. apply Z.leb_gt in W. unfold LConditional in W. lia.
+    + unfold PrintParse.body. cbn [Token.print_items]. rewrite !app_assoc, last_app_ne by discriminate. reflexivity.
+    + rewrite body_call. rewrite !app_assoc, last_app_ne by discriminate. reflexivity.
+    + unfold PrintParse.body, new_parens.
+      replace (T >=? LPostfix) with true by (symmetry; rewrite Z.geb_leb; apply Z.leb_le; unfold LPostfix; lia).
+      rewrite orb_true_r. rewrite !app_assoc, last_app_ne by discriminate. reflexivity.
 Qed.
 
-(* leftmost item of a member chain whose base leads with an identifier or "(" *)
-Lemma lead_head : forall t, lead t = true -> simple_head (print_items LPostfix t).
+(* leftmost item of a member/call chain whose base leads with an identifier or "(" *)
+Lemma lead_head : forall t T, T = LPostfix \/ T = LNew -> lead t = true -> simple_head (print_items T t).
 Proof.
-  induction t as [s0| | |t0 IH0 s0|u w IHw|o2 a IHa b2 IHb|c0 IHc0 y0 IHy0 n0 IHn0|t0 IH0 i0 IHi0]; intro Hl; try discriminate; try exact I.
-  - cbn [print_items]. specialize (IH0 Hl).
-    destruct (print_items LPostfix t0) as [|x l0]; [destruct IH0|]. destruct x; try destruct IH0; exact I.
-  - rewrite print_items_split, (wrapped19c (EUn u w) eq_refl). exact I.
-  - rewrite print_items_split, (wrapped19c (EBin o2 a b2) eq_refl). exact I.
-  - cbn [print_items]. specialize (IH0 Hl).
-    destruct (print_items LPostfix t0) as [|x l0]; [destruct IH0|]. destruct x; try destruct IH0; exact I.
+  induction t as [s0| | |t0 IH0 s0|u w IHw|o2 a IHa b2 IHb|c0 IHc0 y0 IHy0 n0 IHn0|t0 IH0 i0 IHi0|f0 IHf0 a0 IHa0|f0 IHf0 a0 IHa0| |x0 IHx0 r0 IHr0];
+    intros T HT Hl; try discriminate; try exact I.
+  - cbn [Token.print_items]. assert (HT' : tgt_level T = LPostfix \/ tgt_level T = LNew) by (unfold tgt_level; destruct (T =? LNew); auto).
+    specialize (IH0 _ HT' Hl).
+    destruct (print_items (tgt_level T) t0) as [|x l0]; [destruct IH0|]. destruct x; try destruct IH0; exact I.
+  - rewrite print_items_split. replace (wrapped T (EUn u w)) with true; [exact I|].
+    symmetry. unfold wrapped. simpl. rewrite Z.geb_leb. apply Z.leb_le. pose proof (op_level_pos u). destruct HT; subst T; unfold LPostfix, LNew; lia.
+  - rewrite print_items_split. replace (wrapped T (EBin o2 a b2)) with true; [exact I|].
+    symmetry. unfold wrapped. simpl. rewrite Z.geb_leb. apply Z.leb_le. pose proof (op_level_pos o2). destruct HT; subst T; unfold LPostfix, LNew; lia.
+  - destruct HT; subst T; exact I.
+  - cbn [Token.print_items]. assert (HT' : tgt_level T = LPostfix \/ tgt_level T = LNew) by (unfold tgt_level; destruct (T =? LNew); auto).
+    specialize (IH0 _ HT' Hl).
+    destruct (print_items (tgt_level T) t0) as [|x l0]; [destruct IH0|]. destruct x; try destruct IH0; exact I.
+  - rewrite print_items_split. destruct (wrapped T (ECall f0 a0)); [exact I|]. rewrite body_call.
+    simpl in Hl. specialize (IHf0 LPostfix (or_introl eq_refl) Hl).
+    destruct (print_items LPostfix f0) as [|x l0]; [destruct IHf0|]. destruct x; try destruct IHf0; exact I.
 Qed.
 
 Lemma ender_adj x : (x = IClose \/ x = IRBrack \/ x = IQuest \/ x = IColon) -> forall z, ends_operand z = true -> adj z x = true.
 Proof. intros Hx z Hz. unfold adj. rewrite Hz. destruct Hx as [E|[E|[E|E]]]; subst x; reflexivity. Qed.
 
-Theorem print_items_good : forall e, wf e -> lexok e -> forall P,
+Lemma tgt_level_TT P : tgt_level P = LPostfix \/ tgt_level P = LNew.
+Proof. unfold tgt_level. destruct (P =? LNew); auto. Qed.
+
+Definition GoodE (e : expr) : Prop := forall P, Good (print_items P e) /\ Forall item_ok (print_items P e).
+Definition GoodA (a : expr) : Prop :=
+  (a = ANil \/ Good (print_items LComma a)) /\ Forall item_ok (print_items LComma a).
+
+Lemma paren_good P e : Good (body P e) /\ Forall item_ok (body P e) ->
   Good (print_items P e) /\ Forall item_ok (print_items P e).
 Proof.
-  induction e as [s|s|b f|t IHt s|o v IHv|o l IHl r IHr|c IHc y IHy n IHn|t IHt i IHi]; intros Hwf Hlx P.
-  - split; [apply G_atom; reflexivity | constructor; [exact Hwf | constructor]].
-  - split; [apply G_atom; reflexivity | constructor; [exact Hwf | constructor]].
-  - split; [apply G_atom; reflexivity | constructor; [exact Hwf | constructor]].
-  - destruct Hwf as (Hwt & Hs1 & Hs2). simpl in Hlx. destruct (IHt Hwt Hlx LPostfix) as [Gt Ft].
-    cbn [print_items]. split.
-    + apply G_dot; [exact Gt | apply last19].
+  intros [GB FB]. rewrite print_items_split. destruct (wrapped P e).
+  - split; [apply G_paren; exact GB|]. apply Forall_app. split; [constructor; [exact I | constructor]|].
+    apply Forall_app. split; [exact FB | constructor; [exact I | constructor]].
+  - split; assumption.
+Qed.
+
+Theorem print_items_good_both : forall e, (wf e -> lexok e -> GoodE e) /\ (wfa e -> lexok e -> GoodA e).
+Proof.
+  induction e as [s|s|b f|t IHt s|o v IHv|o l IHl r IHr|c IHc y IHy n IHn|t IHt i IHi|f IHf a IHa|f IHf a IHa| |x IHx r IHr];
+    (split; [intros Hwf Hlx; try (destruct Hwf; fail) | intros Hwa Hlx; try (destruct Hwa; fail)]).
+  - intro P. split; [apply G_atom; reflexivity | constructor; [exact Hwf | constructor]].
+  - intro P. split; [apply G_atom; reflexivity | constructor; [exact Hwf | constructor]].
+  - intro P. split; [apply G_atom; reflexivity | constructor; [exact Hwf | constructor]].
+  - intro P. destruct Hwf as (Hwt & Hs1 & Hs2). simpl in Hlx. destruct (proj1 IHt Hwt Hlx (tgt_level P)) as [Gt Ft].
+    cbn [Token.print_items]. split.
+    + apply G_dot; [exact Gt | apply lastT; [apply tgt_level_TT | exact Hwt]].
     + apply Forall_app. split; [exact Ft | constructor; [split; assumption | constructor]].
-  - destruct Hwf as (Hwv & Hku & Hupd). destruct Hlx as (Hlv & Hlead).
-    assert (B : Good (body (EUn o v)) /\ Forall item_ok (body (EUn o v))).
-    { rewrite body_un. destruct (op_kind o) eqn:Ek.
-      - destruct (IHv Hwv Hlv (LPrefix - 1)) as [Gv Fv]. split; [|constructor; [exact I | exact Fv]].
-        apply G_pre; [exact Gv | exact Ek|]. intro Hu.
-        assert (Hio : is_update o = true) by (destruct o; try discriminate; reflexivity).
-        specialize (Hupd Hio). specialize (Hlead Hu).
-        destruct v as [s| | |t s| | | |t i]; try discriminate; [exact I| |]; cbn [print_items]; simpl in Hlead;
-          pose proof (lead_head t Hlead) as H; (destruct (print_items LPostfix t) as [|x l0]; [destruct H|]); destruct x; try destruct H; exact I.
-      - destruct (IHv Hwv Hlv (LPostfix - 1)) as [Gv Fv]. split; [|apply Forall_app; split; [exact Fv | constructor; [exact I | constructor]]].
-        apply G_post; [exact Gv | exact Ek|].
-        assert (Hio : is_update o = true) by (destruct o; try discriminate; reflexivity).
-        specialize (Hupd Hio). destruct v; try discriminate; [exact I| |]; cbn [print_items].
-        + rewrite last_app_ne by discriminate. exact I.
-        + rewrite !app_assoc, last_app_ne by discriminate. exact I.
-      - congruence. }
-    destruct B as [GB FB]. rewrite print_items_split. destruct (wrapped P (EUn o v)).
-    + split; [apply G_paren; exact GB|]. apply Forall_app. split; [constructor; [exact I | constructor]|]. apply Forall_app. split; [exact FB | constructor; [exact I | constructor]].
-    + split; assumption.
-  - destruct Hwf as (Hwl & Hwr & Hk & Hta). destruct Hlx as (Hll & Hlr).
-    assert (B : Good (body (EBin o l r)) /\ Forall item_ok (body (EBin o l r))).
-    { rewrite body_bin. destruct (IHl Hwl Hll (left_lvl o l)) as [Gl Fl]. destruct (IHr Hwr Hlr (right_lvl o r)) as [Gr Fr].
-      split; [apply G_bin; assumption|]. apply Forall_app. split; [exact Fl|]. apply Forall_app. split; [constructor; [exact I | constructor] | exact Fr]. }
-    destruct B as [GB FB]. rewrite print_items_split. destruct (wrapped P (EBin o l r)).
-    + split; [apply G_paren; exact GB|]. apply Forall_app. split; [constructor; [exact I | constructor]|]. apply Forall_app. split; [exact FB | constructor; [exact I | constructor]].
-    + split; assumption.
+  - intro P. apply paren_good. destruct Hwf as (Hwv & Hku & Hupd). destruct Hlx as (Hlv & Hlead).
+    rewrite body_un. destruct (op_kind o) eqn:Ek.
+    + destruct (proj1 IHv Hwv Hlv (LPrefix - 1)) as [Gv Fv]. split; [|constructor; [exact I | exact Fv]].
+      apply G_pre; [exact Gv | exact Ek|]. intro Hu.
+      assert (Hio : is_update o = true) by (destruct o; try discriminate; reflexivity).
+      specialize (Hupd Hio). specialize (Hlead Hu).
+      destruct v as [s| | |t s| | | |t i| | | |]; try discriminate; [exact I| |]; cbn [Token.print_items]; simpl in Hlead;
+        pose proof (lead_head t (tgt_level (LPrefix - 1)) (tgt_level_TT _) Hlead) as H;
+        (destruct (print_items (tgt_level (LPrefix - 1)) t) as [|x l0]; [destruct H|]); destruct x; try destruct H; exact I.
+    + destruct (proj1 IHv Hwv Hlv (LPostfix - 1)) as [Gv Fv]. split; [|apply Forall_app; split; [exact Fv | constructor; [exact I | constructor]]].
+      apply G_post; [exact Gv | exact Ek|].
+      assert (Hio : is_update o = true) by (destruct o; try discriminate; reflexivity).
+      specialize (Hupd Hio). destruct v; try discriminate; [exact I| |]; cbn [Token.print_items].
+      * rewrite last_app_ne by discriminate. exact I.
+      * rewrite !app_assoc, last_app_ne by discriminate. exact I.
+    + congruence.
+  - intro P. apply paren_good. destruct Hwf as (Hwl & Hwr & Hk & Hta). destruct Hlx as (Hll & Hlr).
+    rewrite body_bin. destruct (proj1 IHl Hwl Hll (left_lvl o l)) as [Gl Fl]. destruct (proj1 IHr Hwr Hlr (right_lvl o r)) as [Gr Fr].
+    split; [apply G_bin; assumption|]. apply Forall_app. split; [exact Fl|]. apply Forall_app. split; [constructor; [exact I | constructor] | exact Fr].
   - (* conditional *)
-    destruct Hwf as (Hwc & Hwy & Hwn). destruct Hlx as (Hlc & Hly & Hln).
-    assert (B : Good (body (ECond c y n)) /\ Forall item_ok (body (ECond c y n))).
-    { rewrite body_cond. destruct (IHc Hwc Hlc LConditional) as [Gc Fc]. destruct (IHy Hwy Hly LYield) as [Gy Fy]. destruct (IHn Hwn Hln LYield) as [Gn Fn].
-      split.
-      - apply G_infix; [exact Gc | | reflexivity | reflexivity | apply ender_adj; [auto | apply good_last_ends; exact Gc]].
-        apply G_infix; [exact Gy | exact Gn | reflexivity | reflexivity | apply ender_adj; [auto | apply good_last_ends; exact Gy]].
-      - apply Forall_app. split; [exact Fc|]. apply Forall_app. split; [constructor; [exact I | constructor]|].
-        apply Forall_app. split; [exact Fy|]. apply Forall_app. split; [constructor; [exact I | constructor] | exact Fn]. }
-    destruct B as [GB FB]. rewrite print_items_split. destruct (wrapped P (ECond c y n)).
-    + split; [apply G_paren; exact GB|]. apply Forall_app. split; [constructor; [exact I | constructor]|]. apply Forall_app. split; [exact FB | constructor; [exact I | constructor]].
-    + split; assumption.
+    intro P. apply paren_good. destruct Hwf as (Hwc & Hwy & Hwn). destruct Hlx as (Hlc & Hly & Hln).
+    rewrite body_cond. destruct (proj1 IHc Hwc Hlc LConditional) as [Gc Fc]. destruct (proj1 IHy Hwy Hly LYield) as [Gy Fy]. destruct (proj1 IHn Hwn Hln LYield) as [Gn Fn].
+    split.
+    + apply G_infix; [exact Gc | | reflexivity | reflexivity | apply ender_adj; [auto | apply good_last_ends; exact Gc]].
+      apply G_infix; [exact Gy | exact Gn | reflexivity | reflexivity | apply ender_adj; [auto | apply good_last_ends; exact Gy]].
+    + apply Forall_app. split; [exact Fc|]. apply Forall_app. split; [constructor; [exact I | constructor]|].
+      apply Forall_app. split; [exact Fy|]. apply Forall_app. split; [constructor; [exact I | constructor] | exact Fn].
   - (* index access *)
-    destruct Hwf as (Hwt & Hwi). destruct Hlx as (Hlt & Hli).
-    destruct (IHt Hwt Hlt LPostfix) as [Gt Ft]. destruct (IHi Hwi Hli LLowest) as [Gi Fi].
-    cbn [print_items]. split.
-    + replace (print_items LPostfix t ++ [ILBrack] ++ print_items LLowest i ++ [IRBrack])
-        with (print_items LPostfix t ++ [ILBrack] ++ (print_items LLowest i ++ [IRBrack])) by reflexivity.
+    intro P. destruct Hwf as (Hwt & Hwi). destruct Hlx as (Hlt & Hli).
+    destruct (proj1 IHt Hwt Hlt (tgt_level P)) as [Gt Ft]. destruct (proj1 IHi Hwi Hli LLowest) as [Gi Fi].
+    cbn [Token.print_items]. split.
+    + replace (print_items (tgt_level P) t ++ [ILBrack] ++ print_items LLowest i ++ [IRBrack])
+        with (print_items (tgt_level P) t ++ [ILBrack] ++ (print_items LLowest i ++ [IRBrack])) by reflexivity.
       apply G_infix; [exact Gt | | reflexivity | reflexivity |].
       * apply G_closer; [exact Gi | reflexivity | apply ender_adj; auto].
-      * unfold adj. rewrite (good_last_ends _ Gt), last19. reflexivity.
+      * unfold adj. rewrite (good_last_ends _ Gt), (lastT _ t (tgt_level_TT P) Hwt). reflexivity.
     + apply Forall_app. split; [exact Ft|]. apply Forall_app. split; [constructor; [exact I | constructor]|].
       apply Forall_app. split; [exact Fi | constructor; [exact I | constructor]].
+  - (* call *)
+    intro P. apply paren_good. destruct Hwf as (Hwf' & Hwa). destruct Hlx as (Hlf & Hla).
+    rewrite body_call. destruct (proj1 IHf Hwf' Hlf LPostfix) as [Gf Ff]. destruct (proj2 IHa Hwa Hla) as [Ga Fa].
+    assert (Hlast : is_post (last (print_items LPostfix f) IOpen) = false) by (apply lastT; [left; reflexivity | exact Hwf']).
+    split.
+    + destruct Ga as [Ea|Ga].
+      * subst a. simpl. apply G_call0; assumption.
+      * apply G_infix; [exact Gf | | reflexivity | reflexivity |].
+        -- apply G_closer; [exact Ga | reflexivity | apply ender_adj; auto].
+        -- unfold adj. rewrite (good_last_ends _ Gf), Hlast. reflexivity.
+    + apply Forall_app. split; [exact Ff|]. apply Forall_app. split; [constructor; [exact I | constructor]|].
+      apply Forall_app. split; [exact Fa | constructor; [exact I | constructor]].
+  - (* new *)
+    intro P. apply paren_good. destruct Hwf as (Hwf' & Hwa). destruct Hlx as (Hlf & Hla).
+    unfold PrintParse.body. destruct (proj1 IHf Hwf' Hlf LNew) as [Gf Ff]. destruct (proj2 IHa Hwa Hla) as [Ga Fa].
+    assert (Hlast : is_post (last (print_items LNew f) IOpen) = false) by (apply lastT; [right; reflexivity | exact Hwf']).
+    assert (GN : Good (INew :: print_items LNew f)) by (apply G_new; exact Gf).
+    assert (HlastN : last (INew :: print_items LNew f) IOpen = last (print_items LNew f) IOpen).
+    { apply last_cons_default. apply good_nonempty. exact Gf. }
+    destruct (new_parens mw P a).
+    + split.
+      * change ([INew] ++ print_items LNew f ++ [ICallOpen] ++ print_items LComma a ++ [IClose])
+          with ((INew :: print_items LNew f) ++ [ICallOpen] ++ (print_items LComma a ++ [IClose])).
+        destruct Ga as [Ea|Ga].
+        -- subst a. apply (G_call0 (INew :: print_items LNew f)); [exact GN | rewrite HlastN; exact Hlast].
+        -- apply G_infix; [exact GN | | reflexivity | reflexivity |].
+           ++ apply G_closer; [exact Ga | reflexivity | apply ender_adj; auto].
+           ++ unfold adj. rewrite (good_last_ends _ GN), HlastN, Hlast. reflexivity.
+      * constructor; [exact I|]. apply Forall_app. split; [exact Ff|]. constructor; [exact I|].
+        apply Forall_app. split; [exact Fa | constructor; [exact I | constructor]].
+    + rewrite app_nil_r. split; [exact GN | constructor; [exact I | exact Ff]].
+  - (* no arguments *)
+    split; [left; reflexivity | constructor].
+  - (* argument list *)
+    destruct Hwa as (Hwx & Hwr). destruct Hlx as (Hlx1 & Hlr).
+    destruct (proj1 IHx Hwx Hlx1 LComma) as [Gx Fx]. destruct (proj2 IHr Hwr Hlr) as [Gr Fr].
+    unfold GoodA in *.
+    destruct r as [| | | | | | | | | | |x2 r2]; try (destruct Hwr; fail);
+      change (print_items LComma (ACons x ?r)) with (print_items LComma x ++ match r with ACons _ _ => [IOp BComma] ++ print_items LComma r | _ => [] end);
+      cbv iota.
+    + rewrite app_nil_r. split; [right; exact Gx | exact Fx].
+    + destruct Gr as [Er|Gr]; [discriminate|]. split.
+      * right. apply G_bin; [exact Gx | exact Gr | reflexivity].
+      * apply Forall_app. split; [exact Fx|]. constructor; [exact I | exact Fr].
 Qed.
+
+Theorem print_items_good : forall e, wf e -> lexok e -> forall P,
+  Good (print_items P e) /\ Forall item_ok (print_items P e).
+Proof. intros e Hw Hl. apply (proj1 (print_items_good_both e) Hw Hl). Qed.
 
 Lemma good_chain l : Good l -> chain None l = true.
 Proof. intros (f & tl & E & Hs & Hc & _). subst. cbn [chain]. rewrite Hs, Hc. reflexivity. Qed.
+
+End WithMode.
